@@ -600,10 +600,13 @@ PROPS = {
         "extra": tptp_validate("C09", "strong_text"),
         "rule": "whole problem texts (preamble, declarations, symbol order axioms, formulas) of seeded strong-equivalence tasks under all flag combinations vs Lean `Problem.tptpText`; "
                 "each text parsed by tptp4X; model-side name-hygiene analysis of every problem, classes matched against known_findings.jsonl",
-        "level_text": "Partial: one_conjecture proved for both decompositions; declarations are by construction exactly the occurring predicates/symbols/placeholders; well-typedness fails on the "
-                      "unchanged tree for three identifier classes (known findings, each with a kernel-checked counterexample theorem); tptp4X validates the syntax of every emitted text.",
+        "level_text": "Partial by a genuine defect, otherwise proved: one_conjecture (both decompositions); problem_well_typed - every closed formula of a problem, as a TFF tree (C06), type-checks against the problem's "
+                      "own declarations (predicates at their arity over general, symbolic constants, placeholders at their sort, $int built-ins), every variable bound by a typed quantifier; declared_all / declared_only - "
+                      "the declarations are exactly what occurs; uniqueNames_nodup / decomposed_names_nodup - formula names are pairwise distinct in every emitted problem; hygienic_iff - the model-side analysis of the "
+                      "*mangled identifiers* is exact. What cannot be proved on the unchanged tree is that mangling never clashes: three identifier classes do (known findings with kernel-checked counterexamples); "
+                      "tptp4X validates the syntax of every emitted text.",
         "level_note": PROOF_NOTE + " tptp4X checks syntax, not typing; typing is covered only by the model-side hygiene analysis.",
-        "technique": "Lean 4 proof (one conjecture per problem) + differential correspondence (full problem text) + tptp4X + hygiene analysis",
+        "technique": "Lean 4 proof (typing of TFF trees against the declarations, unique names, one conjecture, exact hygiene analysis) + differential correspondence (full problem text) + tptp4X",
         "design_ref": "DESIGN.md 6/C09",
         "trusted_base": COMMON_TRUST + ["tptp4X as syntax oracle"],
         "assumptions": COMMON_ASSUME,
